@@ -25,7 +25,7 @@ var plainClasses = map[string][]string{
 	"combining":    {"é", "ä"},
 	"nbsp":         {" ", "　"},
 	// characters that have no width and are not white space: they are part of the text wherever they stand
-	"invisible":    {"\ufeff", "\u200b", "\u00ad", "\u200d", "\u2060"},
+	"invisible":    {"\ufeff", "\u200b", "\u00ad", "\u200d", "\u2060", "\ufffd"},
 	"bare-gt":      {">"},
 	"bare-rbrace":  {"}"},
 	"bare-lt":      {"<"},
